@@ -42,3 +42,62 @@ pub fn dump_tables(_args: &[String]) -> i32 {
     }
     0
 }
+
+// ---------------------------------------------------------------------------------------------------
+// guarded execution of the real code: errors, panics and (via the step budget hook) endless loops are values
+
+#[derive(Debug, Clone, PartialEq, Eq)]
+pub enum Out<T> {
+    Ok(T),
+    /// `Debug` rendering of the `asca::Error`
+    Err(String),
+    Panic(String),
+    /// budget exhausted at this loop site
+    Hang(u32),
+}
+
+impl<T> Out<T> {
+    pub fn is_ok(&self) -> bool { matches!(self, Out::Ok(_)) }
+    pub fn ok(self) -> Option<T> { if let Out::Ok(v) = self { Some(v) } else { None } }
+    pub fn class(&self) -> String {
+        match self {
+            Out::Ok(_) => "ok".into(),
+            Out::Err(e) => format!("err:{}", err_kind(e)),
+            Out::Panic(m) => format!("panic:{}", m.chars().take(60).collect::<String>()),
+            Out::Hang(s) => format!("hang:{s}"),
+        }
+    }
+}
+
+/// variant path of an error's `Debug` form: `RuleRun(DeletionOnlySeg)` -> `RuleRun.DeletionOnlySeg`
+pub fn err_kind(e: &str) -> String {
+    let mut parts = Vec::new();
+    let mut cur = String::new();
+    for c in e.chars() {
+        if c.is_alphanumeric() || c == '_' { cur.push(c); }
+        else if c == '(' { parts.push(cur.clone()); cur.clear(); if parts.len() >= 2 { break } }
+        else { break }
+    }
+    if !cur.is_empty() && parts.len() < 2 { parts.push(cur); }
+    parts.join(".")
+}
+
+pub const BUDGET: u64 = 2_000_000;
+
+pub fn quiet_panics() { std::panic::set_hook(Box::new(|_| {})); }
+
+pub fn guarded<T, F: FnOnce() -> Result<T, asca::Error>>(f: F) -> Out<T> {
+    asca::verif::set_budget(BUDGET);
+    let r = std::panic::catch_unwind(std::panic::AssertUnwindSafe(f));
+    asca::verif::set_budget(u64::MAX);
+    match r {
+        Ok(Ok(v)) => Out::Ok(v),
+        Ok(Err(e)) => Out::Err(format!("{e:?}")),
+        Err(p) => {
+            if let Some(b) = p.downcast_ref::<asca::verif::BudgetExhausted>() { Out::Hang(b.site) }
+            else if let Some(s) = p.downcast_ref::<String>() { Out::Panic(s.clone()) }
+            else if let Some(s) = p.downcast_ref::<&str>() { Out::Panic(s.to_string()) }
+            else { Out::Panic("?".into()) }
+        }
+    }
+}
